@@ -35,8 +35,26 @@ pub enum Tear {
     ExactlyHeader,
     InsideTransaction,
     LastByteMissing,
+    /// exactly between two transactions (after the k-th one)
+    BetweenTransactions(u8),
+    /// eight bytes into the length fields of the transaction after the k-th one
+    InsideLengthFields(u8),
 }
-const TEARS: [Tear; 7] = [Tear::Complete, Tear::Absent, Tear::ZeroBytes, Tear::InsideHeader, Tear::ExactlyHeader, Tear::InsideTransaction, Tear::LastByteMissing];
+const TEARS: [Tear; 13] = [
+    Tear::Complete,
+    Tear::Absent,
+    Tear::ZeroBytes,
+    Tear::InsideHeader,
+    Tear::ExactlyHeader,
+    Tear::InsideTransaction,
+    Tear::LastByteMissing,
+    Tear::BetweenTransactions(1),
+    Tear::BetweenTransactions(2),
+    Tear::BetweenTransactions(3),
+    Tear::InsideLengthFields(1),
+    Tear::InsideLengthFields(2),
+    Tear::InsideLengthFields(3),
+];
 
 #[derive(Debug, Default)]
 pub struct Info {
@@ -305,6 +323,20 @@ pub fn run_case(case: &Case, full: bool) -> (Vec<(String, String)>, Info) {
                         info.cuts_inside_pruning += 1;
                     }
                     let first_tx_end = BLOCK_HEADER_SIZE + 40;
+                    // byte offsets at which the k-th transaction of this block file ends
+                    let tx_ends: Vec<usize> = match Block::deserialize_from_net(bytes) {
+                        Ok(blk) => {
+                            let mut o = BLOCK_HEADER_SIZE;
+                            blk.transactions
+                                .iter()
+                                .map(|t| {
+                                    o += t.serialize_for_net().len();
+                                    o
+                                })
+                                .collect()
+                        }
+                        Err(_) => vec![],
+                    };
                     for tear in TEARS {
                         let content: Option<Vec<u8>> = match tear {
                             Tear::Complete => Some(bytes.clone()),
@@ -319,6 +351,18 @@ pub fn run_case(case: &Case, full: bool) -> (Vec<(String, String)>, Info) {
                                 Some(bytes[..first_tx_end].to_vec())
                             }
                             Tear::LastByteMissing => Some(bytes[..bytes.len() - 1].to_vec()),
+                            Tear::BetweenTransactions(k) | Tear::InsideLengthFields(k) => {
+                                // only where a further transaction follows
+                                let k = k as usize;
+                                if k >= tx_ends.len() {
+                                    continue;
+                                }
+                                let cut = tx_ends[k - 1] + if matches!(tear, Tear::InsideLengthFields(_)) { 8 } else { 0 };
+                                if cut >= bytes.len() {
+                                    continue;
+                                }
+                                Some(bytes[..cut].to_vec())
+                            }
                         };
                         let mut f = files.clone();
                         match &content {
